@@ -81,3 +81,63 @@ Definition bad_ids (f : case -> bool) (cs : list case) : list N :=
   map c_id (filter (fun c => negb (f c)) cs).
 Definition bad_codes (cs : list case) : list (N * N) :=
   map (fun c => (c_id c, impl_mon_code c)) (filter (fun c => negb (impl_mon_ok c)) cs).
+
+(** * Single-message scenarios on the real mirror
+    A fresh mirror at height 1 / round 0 receives ONE vote message (prevotes or precommits) for
+    round 0 (voting view) or round 1 (next-round view) carrying [entries].  Prediction of the
+    voting round afterwards and of the proofs held by the voting view, following
+    addPrevote / addPrecommit -> check*ViewShift -> incrementVotingRound (Voting and NextRound swap,
+    the new NextRound is cleared).  A majority precommit for a block never commits here because
+    no proposed header is known ("stuck in this voting round"). *)
+Definition mirror_predict (vals : list N) (is_prevote : bool) (round : N) (entries : list entry)
+  : option (N * list entry * list entry) :=
+  if is_prevote then
+    if round =? 0 then Some (0, entries, [])
+    else match prevote_view_shift (summarize vals entries []) with
+         | Ok true => Some (1, entries, [])
+         | Ok false => Some (0, [], [])
+         | Panic _ => None
+         end
+  else
+    if round =? 0 then
+      match voting_precommit_view_shift (summarize vals [] entries) with
+      | Ok VPNothing | Ok VPCommitBlock => Some (0, [], entries)
+      | Ok VPAdvanceFullyVoted | Ok VPAdvanceNil => Some (1, [], [])
+      | Panic _ => None
+      end
+    else
+      match next_round_precommit_view_shift (summarize vals [] entries) with
+      | Ok NRNothing => Some (0, [], [])
+      | Ok NRJump => Some (1, [], entries)
+      | Ok NRJumpThenTodoPanic => None
+      | Panic _ => None
+      end.
+
+Record mcase := mk_mcase {
+  mc_id : N; mc_vals : list N; mc_prevote : bool; mc_round : N; mc_entries : list entry;
+  mc_res : N; mc_h : N; mc_r : N; mc_obs : obs; mc_pv : list entry; mc_pc : list entry }.
+
+Definition with_step (o : obs) (st : option N) : obs :=
+  mk_obs (o_available o) (o_total_prevote o) (o_total_precommit o) (o_prevote_block o) (o_precommit_block o)
+         (o_most_prevote o) (o_most_precommit o) st.
+
+Definition mcorr_ok (c : mcase) : bool :=
+  match mirror_predict (mc_vals c) (mc_prevote c) (mc_round c) (mc_entries c) with
+  | None => false
+  | Some (r, pv, pc) =>
+      (mc_h c =? 1) && (mc_r c =? r) && map_equiv (mc_pv c) pv && map_equiv (mc_pc c) pc &&
+      (let mo := model_obs (mc_vals c) pv pc in obs_eqb (with_step (mc_obs c) (o_step mo)) mo)
+  end.
+
+Definition mmon_ok (c : mcase) : bool :=
+  c06_sum_mon (mc_vals c) (mc_pv c) (mc_pc c) (mc_obs c) &&
+  c06_round_mon (mc_vals c) (mc_entries c) (mc_h c) (mc_r c).
+
+Definition mmon_code (c : mcase) : N :=
+  (if c06_sum_mon (mc_vals c) (mc_pv c) (mc_pc c) (mc_obs c) then 0 else 1) +
+  (if c06_round_mon (mc_vals c) (mc_entries c) (mc_h c) (mc_r c) then 0 else 2).
+
+Definition mbad_ids (f : mcase -> bool) (cs : list mcase) : list N :=
+  map mc_id (filter (fun c => negb (f c)) cs).
+Definition mbad_codes (cs : list mcase) : list (N * N) :=
+  map (fun c => (mc_id c, mmon_code c)) (filter (fun c => negb (mmon_ok c)) cs).
